@@ -429,14 +429,20 @@ func c27TameName(file string) string {
 	}, file)
 }
 
-// c27StrayVarIcon reports an input line "Icon=…" whose value has ${SNAP} anywhere
-// but as the leading "${SNAP}/" — used only to classify finding F-C27-2.
+// c27StrayVarIcon reports an input line "Icon=<v>" that carries ${SNAP} where the
+// sanitizer's path check does not look: v has no "/" at all (taken for a themed
+// name) or v is "${SNAP}/<rest>" with another ${SNAP} in <rest>.  Used only to
+// classify finding F-C27-2.
 func c27StrayVarIcon(line string) bool {
 	line = strings.TrimSuffix(line, "\r")
 	if !strings.HasPrefix(line, "Icon=") {
 		return false
 	}
-	return strings.Contains(strings.TrimPrefix(line[len("Icon="):], "${SNAP}/"), "${SNAP}")
+	v := line[len("Icon="):]
+	if !strings.Contains(v, "/") {
+		return strings.Contains(v, "${SNAP}")
+	}
+	return strings.HasPrefix(v, "${SNAP}/") && strings.Contains(v[len("${SNAP}/"):], "${SNAP}")
 }
 
 func c27DropStrayVarIcons(content string) (string, bool) {
